@@ -116,10 +116,41 @@ Definition w2_step_ok (l : list string) : bool :=
 Definition w1_read_step_ok (l : list string) : bool :=
   no_use_after "m_readWriteQueue . write ( obj )" "obj" l &&
   before "obj -> read ( m_uncompressedFile )" "m_readWriteQueue . write ( obj )" l &&
-  before "m_readWriteQueue . write ( obj )" "m_uncompressedFile . dropOldData ( )" l.
+  has "m_uncompressedFile . dropOldData ( )" (after "m_readWriteQueue . write ( obj )" l).
+(* every path of the parser step that moves the get position forward releases what lies behind it: the branch for
+   unknown types as well as the delivery path (else a run of unknown objects piles up in memory, C12) *)
+Definition w1_every_path_drops (l : list string) : bool :=
+  has "m_uncompressedFile . dropOldData ( )" (block "if ( obj == nullptr ) {" l) &&
+  has "m_uncompressedFile . dropOldData ( )" (after "m_readWriteQueue . write ( obj )" l).
 
 (* ---- no function of the write path keeps state between calls (function-local statics would make
         the output depend on earlier activity in the process and on other File objects) ---- *)
 Definition no_static (l : list string) : bool := forallb (fun st => negb (mentions "static" st)) l.
 Definition skipp_expected : list string :=
   ["std :: vector < char > zero"; "zero . resize ( s )"; "write ( zero . data ( ) , s )"].
+
+(* ---- open(): once a worker thread has been started, open() does nothing but start the other one ----
+   (a statement behind the thread creation that touches a member the workers also touch would race with them:
+   the application thread is still inside open()) *)
+Definition is_spawn (st : string) : bool := mentions "std" st && mentions "thread" st && mentions "=" st && (mentions "m_uncompressedFileThread" st || mentions "m_compressedFileThread" st).
+Definition is_close_brace (st : string) : bool := match words st with w :: _ => String.eqb w "}" | [] => false end.
+Definition opens_block (st : string) : bool := match rev (words st) with w :: _ => String.eqb w "{" | [] => false end.
+(* depth: current block nesting; armed: a worker was started earlier in this straight-line stretch; seen: a worker was started
+   somewhere before.  Rules: (1) behind a thread creation only further thread creations up to the end of the block;
+   (2) once a worker may be running, no statement at the top level of the function (outside every block) *)
+Fixpoint spawn_scan (l : list string) (depth : nat) (armed seen : bool) : bool :=
+  match l with
+  | [] => true
+  | st :: r =>
+      let closes := is_close_brace st in
+      let d1 := if closes then pred depth else depth in
+      let d2 := if opens_block st then S d1 else d1 in
+      if is_spawn st then spawn_scan r d2 true true
+      else if closes then spawn_scan r d2 false seen
+      else if armed then false
+      else if seen && Nat.eqb d1 0 then false
+      else spawn_scan r d2 armed seen
+  end.
+Definition nothing_after_spawn (l : list string) : bool := spawn_scan l 0 false false.
+(* in a branch of open() that starts workers, exactly both workers are started *)
+Definition spawns (l : list string) : nat := length (filter is_spawn l).
